@@ -23,7 +23,7 @@ from pathlib import Path
 import common as C
 
 DIST_TREES = C.SCRATCH / "dist" / "trees"
-TREE_LAYOUT = b"1"            # bump when the way a tree directory is filled changes
+TREE_LAYOUT = b"2"            # bump when the way a tree directory is filled changes
 MODEL_VO = ["Dist/Num.vo", "Dist/Draw.vo", "Dist/Density.vo"]
 _IMPORT = re.compile(r"^From PV Require Import ((?:Dist\.(?:Gen_Dist|GenAgree)\s*)+)\.\s*$", re.M)
 _COQ_WARN = "-notation-overridden,-deprecated-hint-without-locality,-abstract-large-number,-inexact-float,-ambiguous-paths"
@@ -238,36 +238,40 @@ class DistTree:
         return text
 
     def _cascade(self, text: str, gone: list, note, seen) -> str:
-        """give up, transitively, every later theorem whose PROOF mentions something that is gone, and drop every item
+        """give up, transitively, every theorem whose PROOF mentions something that is gone, and drop every item
         whose STATEMENT / definition body mentions it"""
         work = list(gone)
+        handled = set()
         while work:
             g = work.pop()
             pat = re.compile(r"\b" + re.escape(g) + r"\b")
-            for kind, name, a, b in self._items(text):
-                if name == g or seen.get(name, 0) >= 2:
-                    continue
-                body = text[a:b]
-                if "no longer checks" in body and kind in ("Theorem", "Lemma") and "Proof. Abort." in body:
-                    stmt = body[:body.find("Proof.")]
-                    if pat.search(stmt):
-                        note(name, f"its statement mentions {g}, which no longer checks")
+            again = True
+            while again:
+                again = False
+                for kind, name, a, b in self._items(text):          # offsets are valid until the text changes
+                    if name == g or (name, g) in handled:
+                        continue
+                    body = text[a:b]
+                    if not pat.search(body):
+                        continue
+                    handled.add((name, g))
+                    is_thm = kind in ("Theorem", "Lemma")
+                    i = body.find("Proof.")
+                    in_stmt = bool(pat.search(body[:i])) if (is_thm and i >= 0) else True
+                    aborted = is_thm and "Proof. Abort. (* no longer checks *)" in body
+                    if in_stmt:
+                        note(name, f"its statement / body mentions {g}, which no longer checks")
                         seen[name] = 2
                         text = self._drop(text, name)
-                        work.append(name)
-                    continue
-                if not pat.search(body):
-                    continue
-                i = body.find("Proof.")
-                in_stmt = pat.search(body[:i]) if (kind in ("Theorem", "Lemma") and i >= 0) else True
-                note(name, f"uses {g}, which no longer checks")
-                if in_stmt:
-                    seen[name] = 2
-                    text = self._drop(text, name)
-                else:
-                    seen[name] = max(seen.get(name, 0), 1)
-                    text = self._abort(text, name)
-                work.append(name)
+                    elif aborted:
+                        continue
+                    else:
+                        note(name, f"uses {g}, which no longer checks")
+                        seen[name] = max(seen.get(name, 0), 1)
+                        text = self._abort(text, name)
+                    work.append(name)
+                    again = True
+                    break
         return text
 
     def _sweep(self):
